@@ -7,7 +7,14 @@ import (
 	"regexp"
 )
 
+// MaxQueryLength bounds the text handed to the parser. The parser is recursive (nested parentheses, `and`/`or`
+// chains), so its stack grows with the text; a stack overflow is a fatal error that no recover can catch.
+const MaxQueryLength = 128 << 10
+
 func Parse(str string) (*LogQLScript, error) {
+	if len(str) > MaxQueryLength {
+		return nil, fmt.Errorf("query too long: %d bytes (maximum %d)", len(str), MaxQueryLength)
+	}
 	parser, err := participle.Build[LogQLScript](participle.Lexer(LogQLLexerDefinition), participle.UseLookahead(2))
 	if err != nil {
 		return nil, err
@@ -17,6 +24,9 @@ func Parse(str string) (*LogQLScript, error) {
 }
 
 func ParseSeries(str string) (*LogQLScript, error) {
+	if len(str) > MaxQueryLength {
+		return nil, fmt.Errorf("query too long: %d bytes (maximum %d)", len(str), MaxQueryLength)
+	}
 	promRe := regexp.MustCompile("^([a-zA-Z_]\\w*)\\s*($|\\{.+$)")
 	promExp := promRe.FindSubmatch([]byte(str))
 	if len(promExp) > 0 {
